@@ -137,6 +137,23 @@ def mutate(rng, b, other):
     return bytes(b)
 
 
+def many_component_stream(sof, nf, ns, tables=True, data=b""):
+    """a frame of `nf` components (ids 1..nf, 1x1 sampling) and one scan naming the first `ns` of them - self-consistent lengths, so
+    that the parser gets as far as storing the scan's component pointers; T.81 allows at most 4 components in a scan"""
+    def seg(m, payload):
+        return bytes([0xFF, m]) + (len(payload) + 2).to_bytes(2, "big") + payload
+    out = b"\xff\xd8"
+    if tables:
+        out += seg(0xDB, bytes([0]) + bytes([1] * 64))
+        out += seg(0xC4, bytes([0x00]) + bytes([0, 1] + [0] * 14) + bytes([0]))
+        out += seg(0xC4, bytes([0x10]) + bytes([0, 1] + [0] * 14) + bytes([0]))
+    comps = b"".join(bytes([(i + 1) & 255, 0x11, 0]) for i in range(nf))
+    out += seg(sof, bytes([8, 0, 8, 0, 8, nf & 255]) + comps)
+    sc = b"".join(bytes([(i + 1) & 255, 0x00]) for i in range(ns))
+    out += seg(0xDA, bytes([ns & 255]) + sc + bytes([0, 63, 0]))
+    return out + data + b"\xff\xd9"
+
+
 def worst_huff_stream(nblocks, trunc, ones=True):
     """baseline grayscale stream whose AC table gives the symbol run 0 / size 15 the 16-bit code 0xFFFE and whose
     coefficients all have 15 value bits: 31 bits per coefficient, nearly every byte 0xFF and therefore stuffed - the
@@ -204,6 +221,12 @@ def stage2(ops, model_lines, res_by_v):
     for (w, h, nc, scans) in ((16, 16, 3, [[0]]), (9, 5, 3, [[0], [2]]), (16, 16, 4, [[1, 2]]), (33, 3, 2, [[1]]), (16, 16, 3, [[0], [1], [2]]), (8, 8, 3, [[0, 1]])):
         for api in (0, 3, 3, 4):
             out.append("dfz %d %d %s" % (api, rng.randrange(1 << 30), lossless_partial_stream(w, h, nc, scans).hex()))
+    # frames and scans with more components than a scan may have (the scan's component pointers live in a 4-entry array of the
+    # decompression object)
+    for sof in (0xC0, 0xC2, 0xC3, 0xC9):
+        for nf, ns in ((5, 5), (10, 5), (10, 10), (11, 11), (24, 24), (25, 25), (40, 40), (255, 255), (255, 200), (4, 5), (40, 4)):
+            for api in (0, 3, 4):
+                out.append("dfz %d %d %s" % (api, rng.randrange(1 << 30), many_component_stream(sof, nf, ns, tables=rng.random() < .7, data=bytes([0x55] * rng.choice([0, 40]))).hex()))
     # blocks that consume the most input bytes a block can, with the data ending inside them: the decoder's choice between its
     # checked and unchecked (fast) paths must leave no read beyond the end of the input
     for nb in (1, 2, 3):
